@@ -150,11 +150,13 @@ fn eval(ctx: &Ctx, case: &Case) -> Verdict {
         compare(run, format!("{} by path", c.label()))?;
     }
     // transports: stdin from a file and from a pipe, on two containers chosen by the draws
-    for (k, transport) in [Transport::StdinFile, Transport::StdinPipe].into_iter().enumerate() {
+    for (k, transport) in [Transport::StdinFile, Transport::StdinPipe, Transport::DevStdin, Transport::Fifo].into_iter().enumerate() {
         for j in 0..2 {
-            let ci = pick_idx(case.draws[2 * k + j], 4);
+            // the pipes-by-path take the plain VCF and one drawn container (plain text is the one
+            // container read line by line straight from the handle)
+            let ci = if k >= 2 && j == 0 { 0 } else { pick_idx(case.draws[(2 * k + j) % 4].rotate_left(k as u32), 4) };
             let (run, _) = run_create_bytes(ctx, &dir, "c12", &case.cs, &rendered[ci].0, containers[ci].ext(), &base_opts, transport);
-            compare(run, format!("{} on stdin ({transport:?})", containers[ci].label()))?;
+            compare(run, format!("{} via {transport:?}", containers[ci].label()))?;
         }
     }
     // thread counts on the two BGZF containers, each executed twice more with the first count
@@ -219,7 +221,7 @@ fn eval(ctx: &Ctx, case: &Case) -> Verdict {
 pub fn check(ctx: &Ctx) -> Check {
     let parts: Vec<Box<dyn Part>> = vec![Box::new(RandomPart {
         name: "containers-transports-threads",
-        rule: "diploid call sets (incl. large cohorts of 120..400 samples so that 64 KiB blocks occur, and ~12% call sets that make the run fail) rendered as vcf / bgzf-vcf / bgzf-bcf / raw bcf with generated BGZF layouts (one line per block, 1-byte blocks, cuts inside lines and BCF records, 64 KiB payloads, stored/compressed, empty blocks first/middle/last, with and without EOF marker) x {path, stdin from file, stdin from pipe} x --threads from {1,2,3,4,8,16} x repeated executions (unpinned, pinned to one CPU, pinned to two CPUs) x four environments (Turkish/German locale, exotic time zone, RUST_LOG=trace, HOME unset-like, forced colour); >=3 populations of unequal size: ALL executions of a case must have byte-identical stdout and equal exit status (~20 executions per case); non-trivial = an input of >=3 BGZF blocks",
+        rule: "diploid call sets (incl. large cohorts of 120..400 samples so that 64 KiB blocks occur, and ~12% call sets that make the run fail) rendered as vcf / bgzf-vcf / bgzf-bcf / raw bcf with generated BGZF layouts (one line per block, 1-byte blocks, cuts inside lines and BCF records, 64 KiB payloads, stored/compressed, empty blocks first/middle/last, with and without EOF marker) x {path, stdin from file, stdin from pipe, a pipe named by path (/dev/stdin), a named pipe (mkfifo)} x BCF dictionaries with GT at index 5 or above 127 x --threads from {1,2,3,4,8,16} x repeated executions (unpinned, pinned to one CPU, pinned to two CPUs) x four environments (Turkish/German locale, exotic time zone, RUST_LOG=trace, HOME unset-like, forced colour); >=3 populations of unequal size: ALL executions of a case must have byte-identical stdout and equal exit status (~24 executions per case); non-trivial = an input of >=3 BGZF blocks",
         cases: ctx.tier.pick(120, 3000),
         strategy: Box::new(|| strategy().boxed()),
         eval: Box::new(eval),
